@@ -70,17 +70,26 @@ fn note_names(sim: &mut Sim, d: usize, sv: &Svc) {
         "host": host, "hostk": host.iter().map(|x| x.to_lowercase()).collect::<Vec<_>>()}));
 }
 
-fn host_if(k: u8) -> Vec<IfSpec> {
-    vec![IfSpec { name: "eth0".into(), index: 2, addrs: vec![(v4(192, 168, 1, 10 + k), 24)], up: true }]
+fn v6k(k: u8) -> std::net::IpAddr {
+    crate::respond::v6(&format!("fe80::1:{:x}", 0x10 + k as u16))
+}
+
+fn host_if(k: u8, dual: bool) -> Vec<IfSpec> {
+    let mut addrs = vec![(v4(192, 168, 1, 10 + k), 24)];
+    if dual {
+        addrs.push((v6k(k), 64));
+    }
+    vec![IfSpec { name: "eth0".into(), index: 2, addrs, up: true }]
 }
 
 /// Two or three daemons claiming the same names.
 pub fn scenario_peers(id: u64, seed: u64, _thorough: bool) -> Vec<Value> {
     let mut r = Rng::new(seed.wrapping_mul(2038074743).wrapping_add(id));
     let n = if r.chance(1, 4) { 3 } else { 2 };
-    let hosts: Vec<Vec<IfSpec>> = (0..n).map(|k| host_if(k as u8)).collect();
+    let dual = r.chance(1, 3);
+    let hosts: Vec<Vec<IfSpec>> = (0..n).map(|k| host_if(k as u8, dual)).collect();
     let link: Vec<(usize, u32)> = (0..n).map(|k| (k, 2u32)).collect();
-    let mut s = Sim::new(json!({"id": id, "family": "conflict", "kind": "peers", "n": n}), seed ^ id, hosts, vec![link]);
+    let mut s = Sim::new(json!({"id": id, "family": "conflict", "kind": "peers", "n": n, "dual": dual}), seed ^ id, hosts, vec![link]);
     let inst = *r.pick(&["Shared", "Dot.ted", "Num (2)", "Caf\u{e9}"]);
     let host = *r.pick(&["samehost.local.", "host-2.local.", "Host.local."]);
     let same_host = r.chance(2, 3);
@@ -99,7 +108,7 @@ pub fn scenario_peers(id: u64, seed: u64, _thorough: bool) -> Vec<Value> {
             ty: "_http._tcp.local.".into(),
             inst: inst.to_string(),
             host: if same_host { host.to_string() } else { format!("own{}.local.", k) },
-            addrs: vec![v4(192, 168, 1, 10 + k as u8)],
+            addrs: if dual { vec![v4(192, 168, 1, 10 + k as u8), v6k(k as u8)] } else { vec![v4(192, 168, 1, 10 + k as u8)] },
             port: 8000 + k as u16,
             props: vec![("who".into(), format!("{}", k))],
             probe: true,
@@ -153,14 +162,20 @@ pub fn scenario_peers(id: u64, seed: u64, _thorough: bool) -> Vec<Value> {
 /// One daemon; a conflicting response or a competing probe injected at a chosen moment.
 pub fn scenario_inject(id: u64, seed: u64, _thorough: bool) -> Vec<Value> {
     let mut r = Rng::new(seed.wrapping_mul(715827883).wrapping_add(id));
-    let mut s = Sim::new(json!({"id": id, "family": "conflict", "kind": "inject", "n": 1}), seed ^ id, vec![host_if(0)], vec![vec![(0, 2)]]);
+    let dual = r.chance(1, 2);
+    let mut s = Sim::new(json!({"id": id, "family": "conflict", "kind": "inject", "n": 1, "dual": dual}), seed ^ id, vec![host_if(0, dual)], vec![vec![(0, 2)]]);
     let d = s.spawn(0);
     s.monitor(d);
     s.kick(d);
     let inst = *r.pick(&["Mine", "Mine (2)", "Dot.ted", "x (9)"]);
     let host = *r.pick(&["myhost.local.", "myhost-2.local.", "box-9.local."]);
-    let sv = Svc { ty: "_http._tcp.local.".into(), inst: inst.into(), host: host.into(), addrs: vec![v4(192, 168, 1, 10)], port: 8000,
+    let sv = Svc { ty: "_http._tcp.local.".into(), inst: inst.into(), host: host.into(),
+        addrs: if dual { vec![v4(192, 168, 1, 10), v6k(0)] } else { vec![v4(192, 168, 1, 10)] }, port: 8000,
         props: vec![], probe: true };
+    // somebody else's address record for our host name: IPv4, or (dual stack) IPv6
+    let foreign_addr = |r: &mut Rng| -> RData {
+        if dual && r.chance(1, 2) { RData::Aaaa([0xfe, 0x80, 0, 0, 0, 0, 0, 0, 0, 0, 0, 0, 0, 1, 0, 0x66]) } else { RData::A([192, 168, 1, 66]) }
+    };
     note_names(&mut s, d, &sv);
     s.register(d, sv.info());
     s.kick(d);
@@ -178,7 +193,8 @@ pub fn scenario_inject(id: u64, seed: u64, _thorough: bool) -> Vec<Value> {
                 an.push(RR::new(full.clone(), true, 120, RData::Srv { prio: 0, weight: 0, port: 9999, target: Name::from_labels(&["other", "local"]) }));
             }
             if an.is_empty() || r.chance(1, 2) {
-                an.push(RR::new(hostn.clone(), true, 120, RData::A([192, 168, 1, 66])));
+                let rd = foreign_addr(&mut r);
+                an.push(RR::new(hostn.clone(), true, 120, rd));
             }
             s.deliver(d, 2, src, &wire::response(an), true);
         }
